@@ -203,6 +203,7 @@ type HandlerResponseTemplate struct {
 	UsedIn []ResponseUsedIn
 
 	IsBody       bool
+	IsBodySlice  bool
 	IsBodyReader bool
 	GoTypeFn     GoTypeRenderFunc
 	Body         *SchemaComponent
@@ -230,6 +231,7 @@ func NewHandlerResponseTemplate(r HandlerResponse) HandlerResponseTemplate {
 		UsedIn: r.UsedIn,
 
 		IsBody:       r.IsBody,
+		IsBodySlice:  r.IsBodySlice,
 		IsBodyReader: r.IsBodyReader,
 		GoTypeFn:     r.GoTypeFn,
 		Body:         r.Body,
